@@ -605,7 +605,9 @@ class TrajectoryStore:
                     fs = FieldSet.from_registry(fs_name)
                     for f, metadata in fs.fields.items():
                         if Dimension.SPECIES in metadata.dimensions:
-                            species.update(getattr(associated_data, f).keys())
+                            value = getattr(associated_data, f)
+                            if value is not None:
+                                species.update(value.keys())
 
                 nc_info = self._create_nc_file(
                     associated_file,
@@ -1693,7 +1695,7 @@ class TrajectoryStore:
                 elif data is not None:
                     val = getattr(data, name)
 
-                self._write_to_nc_var(var, index, name, field, val)
+                self._write_to_nc_var(var, index, name, field, val, nc_file.species)
                 nc_file.traj_var[0][index] = index
 
     def _write_to_nc_var(
@@ -1703,8 +1705,12 @@ class TrajectoryStore:
         name: str,
         field: FieldMetadata,
         val: Any,
+        species: list[Species] | None = None,
     ) -> None:
-        """Write a value to a NetCDF variable at the given index."""
+        """Write a value to a NetCDF variable at the given index.
+
+        The position of a species along the species dimension is its position
+        in `species`, the list of species the file was created with."""
 
         # Handle missing values.
         if val is None:
@@ -1718,6 +1724,14 @@ class TrajectoryStore:
         # variable length types of the appropriate base type.
         has_sp = Dimension.SPECIES in field.dimensions
         has_tm = Dimension.THRUST_MODE in field.dimensions
+        if has_sp:
+            species = species or []
+            missing = [sp.name for sp in val if sp not in species]
+            if missing:
+                raise ValueError(
+                    f'Data field "{name}" has species {missing} that are not '
+                    f'in the species dimension of the NetCDF file'
+                )
         match (has_sp, has_tm):
             case (False, False):
                 # float, np.ndarray
@@ -1728,12 +1742,12 @@ class TrajectoryStore:
                     var[index, ti] = val[tm]
             case (True, False):
                 # SpeciesValues[float], SpeciesValues[np.ndarray]
-                for si, sp in enumerate(Species):
+                for si, sp in enumerate(species):
                     if sp in val:
                         var[index, si] = val[sp]
             case (True, True):
                 # SpeciesValues[ThrustModeValues]
-                for si, sp in enumerate(Species):
+                for si, sp in enumerate(species):
                     for ti, tm in enumerate(ThrustMode):
                         if sp in val and tm in val[sp]:
                             var[index, si, ti] = val[sp][tm]
@@ -1767,26 +1781,48 @@ class TrajectoryStore:
                 if all(var[index] == var.get_fill_value()):
                     return None
                 return var[index]
-            case (True, False, False) | (True, False, True):
-                # SpeciesValues[float] | SpeciesValues[np.ndarray]
-                return SpeciesValues(
-                    {sp: var[index, si] for si, sp in enumerate(species)}
-                )
+            case (True, False, False):
+                # SpeciesValues[float]: entries that were never written (the
+                # species is not present for this field) hold the fill value.
+                fill = var.get_fill_value()
+                vals = {
+                    sp: var[index, si]
+                    for si, sp in enumerate(species)
+                    if var[index, si] != fill
+                }
+                if len(vals) == 0 and not field.required:
+                    return None
+                return SpeciesValues(vals)
+            case (True, False, True):
+                # SpeciesValues[np.ndarray]: entries that were never written
+                # are empty variable-length arrays.
+                vals = {
+                    sp: var[index, si]
+                    for si, sp in enumerate(species)
+                    if len(var[index, si]) > 0
+                }
+                if len(vals) == 0 and not field.required:
+                    return None
+                return SpeciesValues(vals)
             case (False, True, False):
                 # ThrustModeValues
-                return ThrustModeValues(
-                    {tm: var[index, ti] for ti, tm in enumerate(ThrustMode)}
-                )
+                tmv = {tm: var[index, ti] for ti, tm in enumerate(ThrustMode)}
+                fill = var.get_fill_value()
+                if not field.required and all(v == fill for v in tmv.values()):
+                    return None
+                return ThrustModeValues(tmv)
             case (True, True, False):
                 # SpeciesValues[ThrustModeValues]
-                return SpeciesValues[ThrustModeValues](
-                    {
-                        sp: ThrustModeValues(
-                            {tm: var[index, si, ti] for ti, tm in enumerate(ThrustMode)}
-                        )
-                        for si, sp in enumerate(species)
-                    }
-                )
+                fill = var.get_fill_value()
+                vals = {}
+                for si, sp in enumerate(species):
+                    tmv = {tm: var[index, si, ti] for ti, tm in enumerate(ThrustMode)}
+                    if all(v == fill for v in tmv.values()):
+                        continue
+                    vals[sp] = ThrustModeValues(tmv)
+                if len(vals) == 0 and not field.required:
+                    return None
+                return SpeciesValues[ThrustModeValues](vals)
             case _:
                 raise ValueError(f'Invalid combination of dimensions for field {name}')
 
